@@ -4,7 +4,7 @@
 # patch applies, the repository's tests still pass, demo fails with it and passes without it.
 # On success stores it as /verif/seeded/<ID>_<n>/{patch.diff,demo.py,meta.json,notes.md}
 id="$1"; n="$2"
-src=/tmp/seeded_out/$id/$n
+src=${SEEDSRC:-/tmp/seeded_out}/$id/$n
 wt=/tmp/vseed_${id}_${n}_$$
 [ -f "$src/patch.diff" ] || { echo "$id/$n: no patch"; exit 2; }
 git -C /repo worktree add --detach -q "$wt" HEAD || exit 3
@@ -21,7 +21,7 @@ demo_mut=$(/venv/bin/python "$src/demo.py" >/dev/null 2>&1; echo $?)
 echo "$id/$n: tests=[$tests] demo_clean_rc=$demo_clean demo_mutant_rc=$demo_mut"
 case "$tests" in *"385 passed"*) ok=1;; *) ok=0;; esac
 if [ "$ok" = 1 ] && [ "$demo_clean" = 0 ] && [ "$demo_mut" != 0 ]; then
-  d=/verif/seeded/${id}_$n; mkdir -p "$d"
+  d=/verif/seeded/${id}_$((n+${SEEDOFF:-0})); mkdir -p "$d"
   cp /tmp/vseed_${id}_${n}.diff "$d/patch.diff"; cp "$src/demo.py" "$d/demo.py"; cp "$src/notes.md" "$d/notes.md" 2>/dev/null
   echo "  KEPT -> $d"
 else
